@@ -34,7 +34,7 @@ CONSTANTS MaxPO, MaxPK, MaxKO,  \* parameters of each kind
           Extra,
           MaxKw,                \* keywords in a call
           NSim,                 \* simulation only: number of randomly drawn signatures (SimSpec)
-          KindMode,             \* "all": every kind at every position; "pat": uniform and rotating kind patterns only
+          KindMode,             \* "all": every str kind at every position; "pat": uniform and rotating kind patterns; "uni": uniform only
           Dump
 
 PO == <<"pa", "pb", "pc", "pd", "pe", "pf">>
@@ -243,6 +243,7 @@ PatOK(ks) ==
 KindsOK(ks) == /\ Cardinality({j \in 1..Len(ks) : ks[j] = "ns"}) <= 1
                /\ ((\E j \in 1..Len(ks) : ks[j] = "ns") => \A j \in 1..Len(ks) : ks[j] \in {"ns", "lit"})
                /\ (KindMode = "pat" => PatOK(ks))
+               /\ (KindMode = "uni" => LET strs == SelectSeq(ks, LAMBDA k : k # "ns") IN \A i \in 1..Len(strs) : strs[i] = strs[1])
 
 Init == sig \in Sigs /\ np = 0 /\ kw = <<>>
 
